@@ -762,7 +762,14 @@ func smtBody(t *Term) string {
 
 // evalTerm evaluates t under a model (variable name -> bits). Used to compute
 // expected observations for replays.
+var _ = 0
+
 func evalTerm(t *Term, model map[string]uint64, memo map[int]uint64) uint64 {
+	return evalTermS(NewTermStore(), t, model, memo)
+}
+
+// evalTermS evaluates with a caller-provided scratch store for constant folding.
+func evalTermS(ts *TermStore, t *Term, model map[string]uint64, memo map[int]uint64) uint64 {
 	if v, ok := memo[t.id]; ok {
 		return v
 	}
@@ -778,7 +785,7 @@ func evalTerm(t *Term, model map[string]uint64, memo map[int]uint64) uint64 {
 	default:
 		av := make([]uint64, len(t.args))
 		for i, a := range t.args {
-			av[i] = evalTerm(a, model, memo)
+			av[i] = evalTermS(ts, a, model, memo)
 		}
 		b2u := func(b bool) uint64 {
 			if b {
@@ -791,7 +798,6 @@ func evalTerm(t *Term, model map[string]uint64, memo map[int]uint64) uint64 {
 			w = t.args[0].sort.Bits()
 		}
 		m := mask(w)
-		ts := NewTermStore() // constant folding helper
 		cst := func(i int) *Term { return ts.Const(t.args[i].sort, av[i]) }
 		switch t.op {
 		case OpNot:
